@@ -24,7 +24,7 @@ RULE = ("each run draws a program (optionally an older version and a rename tabl
 REAL = ["esp_menuconfig.model.MenuConfigState.needs_save/load_config/try_load/reload_sdkconfig_file and all edit methods",
         "esp_menuconfig.app.MenuConfigApp quit/save/load handlers (unbound, fake self)", "esp_menuconfig.idf_headers", "esp_menuconfig.menuconfig(headless=True)",
         "esp_kconfiglib.core baseline bookkeeping (_sdkconfig_value/_loaded_as_default) in _load_config and Symbol.set_value, write_config"]
-STUB = ["Textual runtime (see C17)", "the disk is a plain sandbox directory: no I/O faults are injected (the property's quantifier has none)"]
+STUB = ["Textual runtime (see C17)", "the disk is a plain sandbox directory; one I/O fault is injected: [S] on a read-only tree (EACCES on the rename to .old and on the open for writing)"]
 ASSUMPTIONS = ["'what saving would write' = Kconfig._config_contents(idf_sdkconfig_header(), write_deprecated=False), exactly what MenuConfigApp._do_save writes",
                "a missing file is compared as the empty configuration: it matches iff a save would write no assignment line",
                "the 'loading a file the tool itself wrote' clause is applied to the session's main file (session start / restart), not to files loaded with [O]"]
